@@ -46,7 +46,7 @@ def cases(ctx):
     yield {"shape": ("W",), "p": (F(1), F(2)), "what": "far", "num": "frac"}
     for i in range(nshapes):
         den = rng.choice([1, 1, 2, 4])
-        s = G.any_shape(rng, R=rng.choice([8, 20]), den=den)
+        s = G.any_shape(rng, R=rng.choice([8, 20]), den=den, kinds=("S", "S", "S", "C", "D", "U", "UC"))
         num = ["frac", "int", "float"][i % 3] if den == 1 else ["frac", "float"][i % 2]
         pts = _pts_for(rng, s)
         for what, p in pts[:per]:
